@@ -14,6 +14,16 @@ func (g *Gen) promote(st *State, v Val) Val {
 		return v
 	}
 	cv, ok := st.cells[v.Cell]
+	if ok && (cv.Kind == "int" || cv.Kind == "bool") {
+		// &l for an integer or bool local: the pointee moves to the scalar cell heap ("*int64", ...)
+		if ptl, isP := v.Cell.Type().Underlying().(*types.Pointer); isP && isScalarCell(ptl.Elem()) {
+			key := derefKey(g, ptl.Elem())
+			r := g.freshRef(st)
+			st.heap[key] = g.def("H", g.heapSort[key], fmt.Sprintf("(store %s %s %s)", g.heapGet(st, key), r, cv.T))
+			st.cells[v.Cell] = Val{Kind: "moved"}
+			return Val{T: r, Kind: "opaque", Ty: v.Cell.Type()}
+		}
+	}
 	if !ok || cv.Kind != "struct" {
 		panic(oos("address of a non-struct local stored into the heap"))
 	}
